@@ -17,7 +17,7 @@
 //!   R4 operation returned Err => no entry went from not-Running to Running without such a process
 //!   R5 after add: recorded names pairwise distinct, recorded data directories pairwise distinct
 //!   R6 add requesting a port some (non-removed) entry already records => Err and no new entry
-//!   R7 NodeRegistry::load(save(r)) serialises to the same JSON value as r
+//!   R7 NodeRegistry::load(save(r)) serialises to the same JSON value as r and is the same state (Debug form)
 
 use crate::fakeos::{self, CallKind, FakeOs, Fault};
 use ant_bootstrap::PeersArgs;
@@ -982,6 +982,14 @@ async fn execute_async(case: &Case) -> Exec {
                             fail(
                                 "registry_roundtrip_differs".into(),
                                 ctxt(&format!("saved {v1} loaded {v2}")),
+                                &mut failures,
+                            );
+                        } else if format!("{copy:?}") != format!("{back:?}") {
+                            // same JSON both ways, yet the loaded state is not the saved state
+                            // (something is lost symmetrically)
+                            fail(
+                                "registry_roundtrip_state_differs".into(),
+                                ctxt(&format!("saved {copy:?} loaded {back:?}")),
                                 &mut failures,
                             );
                         }
